@@ -53,7 +53,7 @@ def st_pair(draw, cols, universe):
     free = [t for t in universe if t not in cols]
     fam = draw(
         st.sampled_from(
-            ["slice", "slice", "bigslice", "sort", "sort", "sel", "sel", "projproj", "projcalc", "calcchain", "calcchain", "noop", "trivsel", "mixed"]
+            ["slice", "slice", "bigslice", "sort", "sort", "sel", "sel", "projproj", "projcalc", "calcchain", "calcchain", "noop", "trivsel", "mixed", "wrapsel", "guardsel"]
         )
     )
     if fam == "calcchain" and cols and len(free) >= 2:
@@ -68,6 +68,25 @@ def st_pair(draw, cols, universe):
         order = draw(st.permutations(have))
         keep = tuple(order[: draw(st.integers(0, len(order)))])
         return (("seq", tuple(ups)), ("proj", keep))
+    if fam == "wrapsel":
+        # a selection whose predicate combines a real condition with constant-foldable operands: it is *not* a
+        # do-nothing selection and must not be elided (nor its merge with an upstream selection)
+        from vf.core.gen import Cfg as _Cfg, st_wrapped_pred
+
+        up = ("sel", draw(st_pred(cols, 1))) if draw(st.booleans()) else draw(st_any_op(cols, free))
+        return (up, ("sel", draw(st_wrapped_pred(cols, _Cfg(p_wrap=100, p_plit=0), depth=1))))
+    if fam == "guardsel" and cols:
+        # the second selection is only defined on rows that pass the first (division by a column the first one
+        # requires to be non-zero); in sequence that is fine, so the merged selection must be fine as well
+        g = draw(st.sampled_from(cols))
+        num = draw(st.one_of(st.just(("lit", 6)), st.sampled_from(cols).map(lambda t: ("ref", t))))
+        guard = ("ne", ("ref", g), ("lit", 0))
+        if draw(st.booleans()):
+            guard = ("and", (guard, draw(st_pred(cols, 0, literals=False))))
+        dep = (draw(st.sampled_from(["ge", "lt", "eq"])), ("fdiv", num, ("ref", g)), ("lit", draw(st.integers(-2, 3))))
+        if draw(st.booleans()):
+            dep = (draw(st.sampled_from(["and", "or"])), (dep, draw(st_pred(cols, 0, literals=False))))
+        return (("sel", guard), ("sel", dep))
     if fam == "slice":
         return (("slice",) + draw(st_slice(7, 7)), ("slice",) + draw(st_slice(7, 7)))
     if fam == "bigslice":
